@@ -41,6 +41,17 @@ for _p, _t in (('C06', 'ARM'), ('C07', 'Thumb')):
         'Trusted: vf/ref/enc_*.py tables and the operand formulae of vf/ref/sem.py; the path tracer is validated every run by requiring each region to be constant on its members.',
         'DESIGN.md section 3.4 and 5 C06/C07')
 
+E1_TEXT = ('Differential stepping: generated instruction words (built from the reference encoding tables, register fields biased to SP/LR/PC and '
+           'aliases) are executed by emulate_cycle() from generated valid machine states and the complete post-state (all banked registers, CPSR, '
+           'SPSRs, system registers, every memory byte) is compared with an independent reference interpreter written from the ARM ARM pseudocode; '
+           'UNPREDICTABLE cases are checked for totality and register range only. Sampled exploration concentrated on boundary classes; ')
+E1_NOTE = 'Trusted: the reference model vf/ref (encoding tables, semantics, machine) as a reading of DDI 0406C; listed known findings are matched by exact quirk-adjusted prediction.'
+CLAIMED['C01'] = ('E1 stepdiff', 'property-based differential testing against an independent reference interpreter (Hypothesis-driven generation)',
+                  E1_TEXT + 'covers all 153 data-processing encodings (A1/A2/T1..T4) on arch 4..7.', E1_NOTE, 'DESIGN.md section 5 C01')
+CLAIMED['C04'] = ('E1 stepdiff', 'property-based differential testing against an independent reference interpreter (Hypothesis-driven generation)',
+                  E1_TEXT + 'covers every branch encoding (B/BL/BLX/BX/BXJ/CBZ/TBB/TBH), IT, and PC-reading/PC-writing forms of other families, at instruction '
+                  'addresses near 0 and 2^32 and at both Thumb alignments.', E1_NOTE, 'DESIGN.md section 5 C04')
+
 NOT_YET = {}
 
 
@@ -77,7 +88,7 @@ def main():
             'add_only': True,
         },
         'engines': [
-            {'name': 'E1 stepdiff', 'path': 'vf/props', 'serves_properties': [], 'kind_free_text': 'differential stepping of emulate_cycle against the reference model vf/ref'},
+            {'name': 'E1 stepdiff', 'path': 'vf/props', 'serves_properties': ['C01', 'C04'], 'kind_free_text': 'differential stepping of emulate_cycle against the reference model vf/ref'},
             {'name': 'E2 decodediff', 'path': 'vf/props/decode_check.py', 'serves_properties': ['C06', 'C07'], 'kind_free_text': 'joint path enumeration of decoders and reference encoding tables'},
             {'name': 'E3 unitdiff', 'path': 'vf/props/c17.py', 'serves_properties': ['C17'], 'kind_free_text': 'direct calls of helpers against independent re-implementations'},
             {'name': 'E4 totality', 'path': 'vf/props/c18.py', 'serves_properties': ['C18'], 'kind_free_text': 'validity-predicate fuzzing of emulate_cycle'},
